@@ -220,6 +220,10 @@ class Server:
             raise httpx.ReadError("connection reset after the request was handled", request=request)
         if m == "202_silence":
             return httpx.Response(202)
+        if m == "202_then_stream_end":
+            # the request is acknowledged and then the server ends the event stream (restart, dropped connection)
+            self.stream.release()
+            return httpx.Response(202)
         if m == "202_event_twice":
             async def later2():
                 await asyncio.sleep(d)
@@ -378,6 +382,11 @@ def gen_cases(ctx):
         yield {"est": {"kind": "path"}, "server_msgs": big, "cuts": [], "requests": [], "exit": "normal"}
         yield {"est": {"kind": "path"}, "server_msgs": big, "cuts": [n * 7], "server_msgs_at": 0.05,
                "requests": [{"id": "after-flood", "mode": "202_then_event", "delay": 0.3}], "exit": "normal"}
+    # --- the context is left while a request is pending on a connection whose event stream the server has ended ------
+    for ex in ("normal", "exception", "exception_in_flight"):
+        for la in (0.0, 0.2, 1.0):
+            yield {"est": {"kind": "path"}, "requests": [{"id": "pend", "mode": "202_then_stream_end"}], "exit": ex, "leave_after": la}
+            yield {"est": {"kind": "path"}, "requests": [{"id": "pend", "mode": "202_silence"}], "exit": ex, "leave_after": la}
     # --- exit paths -----------------------------------------------------------------
     for mode in ("202_then_event", "202_silence", "200_body"):
         yield {"est": {"kind": "path"}, "requests": [{"id": 1, "mode": mode}], "exit": "exception"}
@@ -444,6 +453,9 @@ async def scenario(case: Dict[str, Any], srv: Server, obs: Dict[str, Any]):
                     if case["exit"] == "exception_in_flight":
                         await asyncio.sleep(0.01)
                         raise RuntimeError("body failed while request in flight")
+                    if case.get("leave_after") is not None:
+                        await asyncio.sleep(case["leave_after"])     # the application leaves while the request is pending
+                        break
                     await asyncio.sleep(TIMEOUT + 1.5 if req["mode"] in ("202_silence", "202_then_event", "event_then_202",
                                                                          "202_then_event_error", "event_then_202_error")
                                         and (req["mode"] == "202_silence" or req.get("delay", 0) > 1) else 1.5)
@@ -454,7 +466,7 @@ async def scenario(case: Dict[str, Any], srv: Server, obs: Dict[str, Any]):
                     for k_req, req in enumerate(case.get("late_requests", [])):
                         await write.send(create_request("tools/call", {"name": "t", "arguments": {"x": TEXT}}, id=req["id"]))
                         await asyncio.sleep(1.5)
-                if any("202" in r["mode"] for r in case.get("requests", [])):
+                if any("202" in r["mode"] for r in case.get("requests", [])) and case.get("leave_after") is None:
                     await asyncio.sleep(TIMEOUT + 1.0)   # a wrongly pending request would time out here
                 if case["exit"] == "exception":
                     raise RuntimeError("body failed")
@@ -696,8 +708,8 @@ def exec_case(ctx, case: Dict[str, Any]) -> None:
                     want_body = {"jsonrpc": "2.0", "id": rid, "method": "tools/call", "params": {"name": "t", "arguments": {"x": TEXT}}}
                     if not strict_eq(posts[0]["body"], want_body):
                         ctx.violation("post_body_differs", f"POST body {posts[0]['body']!r} is not the message {want_body!r}", case)
-            if case["exit"] != "normal":
-                continue
+            if case["exit"] != "normal" or case.get("leave_after") is not None:
+                continue      # the application left while the request was pending: only the exit is judged
             msgs = [norm_any(m) for _, m in obs["got"]]
             mine = [g for g in msgs if g[0] in ("response", "error") and g[1] == tagged(rid)]
             twins = [g for g in msgs if g[0] in ("response", "error") and g[1] != tagged(rid)
